@@ -130,25 +130,19 @@ func runC12(c *Ctx, r *Report) {
 			switch tn {
 			case "GT", "LT", "GTEQ", "LTEQ":
 				seen[tn] = true
-				var call *ssa.Call
-				for _, in := range tb.Instrs {
-					if cl, ok := in.(*ssa.Call); ok && isCallTo(cl, cmpFn) {
-						call = cl
-					}
-				}
 				desc := "operator " + tn
+				call, use := c.orderingThreshold(fn, tb, op, left, right, k, cmpFn, 0)
 				if call == nil {
 					r.Fail("C12.R1", fname, desc+" delegates to Cmp", c.Pos(ifi.Pos()), "the comparison operator does not call object.Cmp")
 					continue
 				}
 				a := call.Common().Args
-				r.Check(a[0] == ssa.Value(left) && a[1] == ssa.Value(right), "C12.R1", fname, desc+" passes (left, right) in order", c.Pos(call.Pos()), "operands of Cmp are not (left, right)")
-				uses := cmpUses(call)
-				if len(uses) != 1 {
-					r.Fail("C12.R1", fname, desc+" threshold", c.Pos(call.Pos()), fmt.Sprintf("expected one comparison of the Cmp result, found %d", len(uses)))
+				r.Check(c.sameArgOrigin(a[0], left, call) && c.sameArgOrigin(a[1], right, call), "C12.R1", fname, desc+" passes (left, right) in order", c.Pos(call.Pos()), "operands of Cmp are not (left, right)")
+				if use == nil {
+					r.Fail("C12.R1", fname, desc+" threshold", c.Pos(call.Pos()), "no single comparison of the Cmp result belongs to this operator")
 					continue
 				}
-				ts, ok := truthSet(uses[0], call)
+				ts, ok := truthSet(use, call)
 				r.Check(ok && ts == want[tn], "C12.R1", fname, desc+" threshold", c.Pos(call.Pos()),
 					fmt.Sprintf("the operator holds for Cmp results %s, expected %s: the four comparison operators are no longer mutually consistent", ts, want[tn]))
 			case "EQ", "NOTEQ":
@@ -812,4 +806,102 @@ func init() {
 		assume:  []string{"cmp.Compare is a total order on its operand type (NaN ordered first, by its contract)", "the justification table for panic arms (REFERENCE/REGISTER via Value(), RETURN via C01.R7); a MACRO arm in the panic list is a violation: macro objects are visible as values inside macro bodies"},
 		run:     runC12,
 	})
+}
+
+// orderingThreshold: for the arm (block tb) that handles one ordering operator, the call of object.Cmp it
+// relies on and the one comparison of its result that belongs to that operator. The arm may do both itself,
+// or hand (operator, left, right) to a helper that calls Cmp once and picks the threshold by operator.
+func (c *Ctx) orderingThreshold(fn *ssa.Function, tb *ssa.BasicBlock, op, left, right ssa.Value, tok int64, cmpFn *types.Func, depth int) (*ssa.Call, ssa.Value) {
+	for _, in := range tb.Instrs {
+		if cl, ok := in.(*ssa.Call); ok && isCallTo(cl, cmpFn) {
+			uses := cmpUses(cl)
+			if len(uses) == 1 {
+				return cl, uses[0]
+			}
+			return cl, nil
+		}
+	}
+	if depth > 1 {
+		return nil, nil
+	}
+	// a helper
+	for _, in := range tb.Instrs {
+		hc, ok := in.(*ssa.Call)
+		if !ok {
+			continue
+		}
+		callee := hc.Common().StaticCallee()
+		if callee == nil || !isModuleSSA(callee) || callee.Blocks == nil {
+			continue
+		}
+		opIdx := -1
+		for i, a := range hc.Common().Args {
+			if a == op {
+				opIdx = i
+			}
+		}
+		if opIdx < 0 || opIdx >= len(callee.Params) {
+			continue
+		}
+		hop := callee.Params[opIdx]
+		// the helper's single Cmp call and, in the arm for this operator, the comparison of its result
+		var cmpCall *ssa.Call
+		for _, ci := range callsIn(callee, cmpFn) {
+			if cl, ok := ci.(*ssa.Call); ok {
+				cmpCall = cl
+			}
+		}
+		if cmpCall == nil {
+			continue
+		}
+		for _, b := range callee.Blocks {
+			ifi, ok := b.Instrs[len(b.Instrs)-1].(*ssa.If)
+			if !ok {
+				continue
+			}
+			bin, ok := ifi.Cond.(*ssa.BinOp)
+			if !ok || bin.Op != token.EQL || bin.X != ssa.Value(hop) {
+				continue
+			}
+			if k, ok := constInt(bin.Y); !ok || k != tok {
+				continue
+			}
+			arm := b.Succs[0]
+			var inArm []ssa.Value
+			for _, u := range cmpUses(cmpCall) {
+				ub := u.(ssa.Instruction).Block()
+				if ub == arm || (len(arm.Preds) == 1 && arm.Dominates(ub)) {
+					inArm = append(inArm, u)
+				}
+			}
+			if len(inArm) == 1 {
+				return cmpCall, inArm[0]
+			}
+			return cmpCall, nil
+		}
+		return cmpCall, nil
+	}
+	return nil, nil
+}
+
+// sameArgOrigin: argument a of a Cmp call is the value want of the operator function, directly or as the
+// parameter of the helper that was handed want in the same position.
+func (c *Ctx) sameArgOrigin(a ssa.Value, want ssa.Value, call *ssa.Call) bool {
+	if a == want {
+		return true
+	}
+	p, ok := a.(*ssa.Parameter)
+	if !ok {
+		return false
+	}
+	sites, ok := c.argsAtCallSites(p)
+	if !ok || len(sites) == 0 {
+		return false
+	}
+	for _, s := range sites {
+		if s.v != want {
+			return false
+		}
+	}
+	return true
 }
